@@ -52,6 +52,7 @@ func parseInfluxLine(
 	namespace string,
 	multiplier int64,
 	limits *models.Limits,
+	extraTags ...int, // number of tags the request adds to every row (enriched tags)
 ) error {
 	// skip comment line
 	if bytes.HasPrefix(content, []byte{'#'}) {
@@ -81,6 +82,13 @@ func parseInfluxLine(
 		return err
 	}
 
+	numTags := len(tags)
+	for _, n := range extraTags {
+		numTags += n
+	}
+	if limits.EnableTagsCheck() && numTags > limits.MaxTagsPerMetric {
+		return constants.ErrTooManyTagKeys
+	}
 	for k, v := range tags {
 		tagKey := strutil.String2ByteSlice(k)
 		if limits.EnableTagNameLengthCheck() && len(tagKey) > limits.MaxTagNameLength {
